@@ -10,9 +10,10 @@ wire* and answers with.  Between the two lie
   `session_presence.go`): `getIDTyp` on the start element; no unqualified id attribute → one
   is appended; its value empty → a fresh random id is stored *in that attribute*;
 * the attribute pass of the session's encoder (`session.go`, `stanzaEncoder.EncodeToken`) on
-  the top-level stanza start: every attribute with the LOCAL name `id` (whatever its
-  namespace) and an empty value is dropped; if no attribute with the local name `id` and a
-  non-empty value is left, another fresh random id is appended.
+  the top-level stanza start: an UNQUALIFIED `id` attribute with an empty value is dropped; if
+  no unqualified `id` with a value is left, another fresh random id is appended; attributes
+  that merely share the local name (`x:id`, `xmlns:id`) are passed on as they are (round F:
+  the code as repaired in round E by the wire builder).
 
 The reply is then looked up by `(id, element name)` only: the `to` of the request and the
 `from` of the reply take no part (`Reply.from` is carried by the model for exactly that
@@ -60,12 +61,14 @@ def prepare (cfg : Cfg) (f₁ : Nat) (attrs : List Attr) : Nat × List Attr :=
   | some (idx, v) =>
     if v = 0 then (f₁, if cfg.storeFresh then setVal attrs idx f₁ else attrs) else (v, attrs)
 
-/-- attribute pass of `stanzaEncoder.EncodeToken` on a top-level stanza start, id part:
-local name `id` with an empty value is dropped whatever the namespace; a fresh id is added
-when no attribute with the local name `id` is left -/
+/-- attribute pass of `stanzaEncoder.EncodeToken` on a top-level stanza start, id part (after the
+round E repair "the stanza encoder takes any attribute with the local name id … for the stanza
+attribute, whatever its namespace"): only the UNQUALIFIED id is the stanza's id — it is dropped when
+its value is empty, and a fresh id is added when no unqualified id with a value is left; qualified
+look-alikes (`x:id`, `xmlns:id`) pass through untouched, empty or not -/
 def encode (f₂ : Nat) (attrs : List Attr) : List Attr :=
-  let kept := attrs.filter (fun a => !(a.loc = .id && a.val = 0))
-  if kept.any (fun a => a.loc = .id) then kept else kept ++ [⟨.none, .id, f₂⟩]
+  let kept := attrs.filter (fun a => !(a.space = .none && a.loc = .id && a.val = 0))
+  if kept.any (fun a => a.space = .none && a.loc = .id) then kept else kept ++ [⟨.none, .id, f₂⟩]
 
 /-- what the peer reads as the stanza's id -/
 def wireId (attrs : List Attr) : Option Nat := (idOf attrs).map (·.2)
